@@ -12,7 +12,8 @@ from .. import core, pipes, structural as st
 
 THEOREMS = ['Pk.C08.C08_weights', 'Pk.C08.C08_weights_len', 'Pk.C08.C08_perfect_zero', 'Pk.C08.C08_nonpos',
             'Pk.C08.weights_nonneg', 'Pk.C08.C08_floor', 'Pk.C08.C08_nonfinite', 'Pk.C08.C08_onestep_wiring',
-            'Pk.C08.C08_multistep_misaligned_witness']
+            'Pk.C08.C08_multistep_misaligned_witness', 'Pk.C08.C08_onestep_aligned', 'Pk.C08.C08_multistep_compared',
+            'Pk.predictFlat_refines', 'Pk.predictTrajectory_refines']
 ALG = ['poly', 'bilinear', 'const', 'delay']
 GAMMAS = [Fraction(0), Fraction(1, 2), Fraction(1), Fraction(3, 4), Fraction(1, 4)]
 
